@@ -92,12 +92,20 @@ pub fn run(args: &Args, tier: &str, seed: u64, backend: &str) -> Report {
                                 // replay of one cell: the spelling recorded with the cell wins over the seed-dependent choice
                                 if let Some(o) = only.as_ref() {
                                     if scheme_dim.is_empty() || *scheme_dim == "ipps" {
-                                        if o == &format!("{base_cell}/https") { scheme = "https"; } else if o == &format!("{base_cell}/ipps") { scheme = "ipps"; }
+                                        if o.starts_with(&format!("{base_cell}/https")) { scheme = "https"; } else if o.starts_with(&format!("{base_cell}/ipps")) { scheme = "ipps"; }
                                     }
                                 }
-                                let cell = format!("{base_cell}/{scheme}");
+                                // target host: the name the "valid" leaves are issued for, or the IP literal they also carry as an iPAddress SAN (the wrong-host
+                                // leaf matches neither); one spelling per cell, chosen by another bit of the cell hash and the seed (a recorded cell names its own)
+                                let mut host: &str = if ((vkit::rng::hash64(base_cell.as_bytes()) >> 1) ^ (seed >> 1)) & 1 == 0 { "localhost" } else { "127.0.0.1" };
+                                if let Some(o) = only.as_ref() {
+                                    if o.starts_with(&format!("{base_cell}/")) {
+                                        if o.ends_with("/127.0.0.1") { host = "127.0.0.1"; } else { host = "localhost"; }
+                                    }
+                                }
+                                let cell = format!("{base_cell}/{scheme}/{host}");
                                 let id = format!("{leaf}{n}");
-                                if only.as_ref().map(|o| o != &cell).unwrap_or(false) {
+                                if only.as_ref().map(|o| o != &cell && format!("{o}/localhost") != cell).unwrap_or(false) {
                                     continue;
                                 }
                                 // mixed-backend builds in the quick tier: the sub-matrix that decides acceptance and the opt-out
@@ -109,7 +117,8 @@ pub fn run(args: &Args, tier: &str, seed: u64, backend: &str) -> Report {
                                 srv.on(&id, Arc::new(move |_r: &Req| Plan::ok(resp.clone())));
                                 let events_before = srv.log.lock().unwrap().len();
                                 rep_m.lock().unwrap().seen("target_schemes", scheme);
-                                let uri = format!("{scheme}://localhost:{}/case/{id}/ipp/print", srv.port);
+                                rep_m.lock().unwrap().seen("target_hosts", host);
+                                let uri = format!("{scheme}://{host}:{}/case/{id}/ipp/print", srv.port);
                                 // cells with nothing configured go through the plain constructors (IppClient::new / AsyncIppClient::new): no timeout there
                                 let ccfg = ClientCfg { ignore_tls: ignore, ca: root_bytes(root), timeout_ms: if ignore.is_none() && root == "none" { None } else { Some(30_000) }, ..ClientCfg::default() };
                                 let mut req = mirror::to_ipp(&request(n));
@@ -277,7 +286,7 @@ pub fn run(args: &Args, tier: &str, seed: u64, backend: &str) -> Report {
         }
     }
     rep.extra.insert("tls_backend_of_this_build".into(), J::Str(backend.to_string()));
-    rep.rule = format!("Complete matrix for the {backend} build: {{blocking, async}} x ignore_tls_errors {{unset, false, true}} x extra root {{none, correct CA as PEM, as DER, unrelated CA, second (tiny Ed25519, DER < 256 bytes and ending in a 0x0a octet) CA as PEM, as DER, correct CA as PEM with CRLF line endings and a leading comment line, correct CA as PEM behind its `openssl x509 -text` dump, third CA as PEM whose base64 body consists of full 64-character lines only (DER length 48k-2..48k)}} x server certificate {{valid for localhost, wrong host name, expired, self-signed, signed by an unknown CA, valid under the second CA, expired less than a minute before the run, valid under the third CA}} = 432 cells per TLS backend build, the target written ipps:// or https:// (quick: one spelling per cell chosen by cell hash and seed; thorough: both, x {{1.2+1.3, 1.2-only, 1.3-only}} peers), against a loopback rustls peer with freshly generated CAs. Oracle: accept <=> ignore == true or the supplied root (PEM or DER) is the one the valid leaf chains to; in every rejected cell the peer application must have received zero decrypted bytes. Plus client-reuse sequences: one client object sends to a valid server, the peer closes the connection after its answer, the server is then restarted with another certificate (same port, new TLS configuration: earlier sessions cannot be resumed) for an expired / wrong-host / valid one, and the same client sends again - refused, refused, accepted. Four builds are run and merged by the driver: both clients on native-tls, both on rustls (full matrix each), and the two mixed builds - blocking native-tls + async rustls, blocking rustls + async native-tls - with the full matrix in thorough and a 36-cell sub-matrix ({{valid, wrong host, expired}} x {{no root, PEM, DER}} x {{unset, true}} x 2 clients) in quick.");
+    rep.rule = format!("Complete matrix for the {backend} build: {{blocking, async}} x ignore_tls_errors {{unset, false, true}} x extra root {{none, correct CA as PEM, as DER, unrelated CA, second (tiny Ed25519, DER < 256 bytes and ending in a 0x0a octet) CA as PEM, as DER, correct CA as PEM with CRLF line endings and a leading comment line, correct CA as PEM behind its `openssl x509 -text` dump, third CA as PEM whose base64 body consists of full 64-character lines only (DER length 48k-2..48k)}} x server certificate {{valid for localhost, wrong host name, expired, self-signed, signed by an unknown CA, valid under the second CA, expired less than a minute before the run, valid under the third CA}} = 432 cells per TLS backend build, the target written ipps:// or https:// (quick: one spelling per cell chosen by cell hash and seed; thorough: both, and its host written as the name `localhost` or as the IP literal 127.0.0.1 - the leaves issued for localhost carry both a dNSName and an iPAddress SAN, the wrong-host leaf matches neither; one host spelling per cell by another hash bit; x {{1.2+1.3, 1.2-only, 1.3-only}} peers), against a loopback rustls peer with freshly generated CAs. Oracle: accept <=> ignore == true or the supplied root (PEM or DER) is the one the valid leaf chains to; in every rejected cell the peer application must have received zero decrypted bytes. Plus client-reuse sequences: one client object sends to a valid server, the peer closes the connection after its answer, the server is then restarted with another certificate (same port, new TLS configuration: earlier sessions cannot be resumed) for an expired / wrong-host / valid one, and the same client sends again - refused, refused, accepted. Four builds are run and merged by the driver: both clients on native-tls, both on rustls (full matrix each), and the two mixed builds - blocking native-tls + async rustls, blocking rustls + async native-tls - with the full matrix in thorough and a 36-cell sub-matrix ({{valid, wrong host, expired}} x {{no root, PEM, DER}} x {{unset, true}} x 2 clients) in quick.");
     if only.is_none() {
         let want = if reduced { 36 } else { 432 * version_sets.len() * if tier == "thorough" { 2 } else { 1 } };
         rep.require(rep.evaluations as usize >= want, "all cells of the matrix executed");
